@@ -493,6 +493,17 @@ func (C09) Run(t *testing.T, sc any) *sim.Outcome {
 		return out
 	}
 	cap := 8*len(h0.Events) + 64
+	if cfg.UseGitignore {
+		// an unreadable ignore file legitimately makes the walk do MORE than the fault-free run
+		// (everything it would have excluded): the termination bound is taken from the larger of the
+		// two fault-free histories, with and without gitignore handling
+		noGI := base.Clone()
+		noGI.UseGitignore = false
+		if h1 := Execute(t, noGI); h1.Panic == "" && !h1.StepCap && 8*len(h1.Events)+64 > cap {
+			cap = 8*len(h1.Events) + 64
+		}
+		out.Executions++
+	}
 	if cfg.ExactInodeLimit && !cfg.UseGitignore {
 		// (with gitignore handling an unreadable .gitignore legitimately makes the walk visit MORE)
 		base.MaxInodes = countOp(h0.Events, "inode")
